@@ -99,3 +99,70 @@ Proof.
   destruct (json_encode_decode_roundtrip c j Ok (valid_profile_claim_ok c Cf B) E) as (c' & D & Vw).
   exists j, c'. repeat split; try assumption. rewrite <- (validate_view c'), Vw, validate_view. exact V.
 Qed.
+
+(** * the JSON gates (C08) and what the JSON dispatcher hands back (C07) *)
+Theorem json_gates c j :
+  (validate S c <> Ok tt -> validate_and_encode_json S W c = None) /\
+  (validate S c = Ok tt -> validate_and_encode_json S W c = encode_json W c) /\
+  (forall c', decode_and_validate_json S W j = DOk c' -> decode_json S W j = DOk c' /\ validate S c' = Ok tt) /\
+  (forall c', decode_json S W j = DOk c' -> validate S c' = Ok tt -> decode_and_validate_json S W j = DOk c') /\
+  (forall c', decode_json S W j = DOk c' -> validate S c' <> Ok tt -> decode_and_validate_json S W j = DErr).
+Proof.
+  unfold validate_and_encode_json, decode_and_validate_json. split; [|split; [|split; [|split]]].
+  - intro V. destruct (validate S c) as [[]| |]; [congruence| |]; reflexivity.
+  - intro V. rewrite V. reflexivity.
+  - intros c' H. destruct (decode_json S W j) as [c0| |]; try discriminate. destruct (validate S c0) as [[]| |] eqn:V; try discriminate. injection H as <-. split; [reflexivity|exact V].
+  - intros c' D V. rewrite D, V. reflexivity.
+  - intros c' D V. rewrite D. destruct (validate S c') as [[]| |]; [congruence| |]; reflexivity.
+Qed.
+
+(** whatever passes the JSON encoding gate is accepted by the JSON decoding gate *)
+Theorem json_emitted_is_accepted c j : builtin c -> texts_utf8 c ->
+  validate_and_encode_json S W c = Some j -> exists c', decode_and_validate_json S W j = DOk c' /\ view c' = view c.
+Proof.
+  intros B T E. unfold validate_and_encode_json in E. destruct (validate S c) as [[]| |] eqn:V; try discriminate.
+  destruct (json_roundtrip_valid c V B T) as (j' & c' & E' & D & Vw & V').
+  rewrite E in E'. injection E' as <-. exists c'. split; [|exact Vw].
+  unfold decode_and_validate_json. rewrite D, V'. reflexivity.
+Qed.
+
+Lemma jd_field_keeps f v c c' : jd_field SW f v c = Some c' -> c_kind c' = c_kind c /\ c_canon c' = c_canon c.
+Proof.
+  unfold jd_field.
+  destruct (slot_of_name (f_name f)), (kind_of_type (f_type f)); try discriminate;
+    try (match goal with |- option_map _ ?d = _ -> _ => destruct d; cbn; intro H; try discriminate; injection H as <-; split; reflexivity end).
+  - destruct v; try discriminate; try (intro H; injection H as <-; split; reflexivity);
+      match goal with |- option_map _ ?d = _ -> _ => destruct d; cbn; intro H; try discriminate; injection H as <-; split; reflexivity end.
+  - destruct v; try discriminate; try (intro H; injection H as <-; split; reflexivity);
+      match goal with |- option_map _ ?d = _ -> _ => destruct d; cbn; intro H; try discriminate; injection H as <-; split; reflexivity end.
+Qed.
+
+Lemma jd_fields_keeps m : forall ts c c', jd_fields SW ts m c = Some c' -> c_kind c' = c_kind c /\ c_canon c' = c_canon c.
+Proof.
+  induction ts as [|f r IH]; intros c c' H; cbn [jd_fields] in H.
+  - injection H as <-. split; reflexivity.
+  - destruct (f_json_skip f); [apply (IH _ _ H)|].
+    destruct (jassoc m (s2b (f_json f))) as [v|]; [|apply (IH _ _ H)].
+    destruct (jd_field SW f v c) as [c1|] eqn:E; [|discriminate].
+    destruct (jd_field_keeps _ _ _ _ E) as [K1' C1]. destruct (IH _ _ H) as [K2' C2]. split; congruence.
+Qed.
+
+(** a JSON document accepted by the dispatching decoder was decoded into the claims type of a registered
+    built-in profile, and -- once validated -- reports exactly that profile *)
+Theorem decode_json_kind j c : decode_json S W j = DOk c ->
+  (c_kind c = K1 /\ c_canon c = prof1 S) \/ (c_kind c = K2 /\ c_canon c = prof2 S).
+Proof.
+  unfold decode_json. destruct j; try discriminate.
+  destruct (negb (nodup_keys l)); [discriminate|].
+  destruct (dispatch_json (reg0 (prof1 S) (prof2 S)) (members_fn l)) as [e|]; [|discriminate].
+  destruct (en_kind e);
+    match goal with |- match ?d with _ => _ end = _ -> _ => destruct d as [c1|] eqn:E end; try discriminate;
+    intro H; injection H as <-; destruct (jd_fields_keeps _ _ _ _ E) as [Kk Cc]; [left|right]; split; assumption.
+Qed.
+
+Theorem json_validated_under_declared j c : decode_json S W j = DOk c -> validate S c = Ok tt ->
+  ((c_kind c = K1 /\ c_canon c = prof1 S) \/ (c_kind c = K2 /\ c_canon c = prof2 S)) /\ get_profile c = Ok (c_canon c).
+Proof.
+  intros D V. split; [exact (decode_json_kind j c D)|].
+  destruct (getters_after_validate c V) as (_ & _ & _ & _ & _ & (p & P & ->) & _). exact P.
+Qed.
